@@ -334,13 +334,17 @@ def run(seed, tier, budget_s):
     while i < n and batch.elapsed() < budget_s:
         plans = [gen_plan(core.run_rng(seed, PID, j), j)
                  for j in range(i, min(n, i + step))]
-        for p, r in zip(plans, core.map_plans(MOD, plans, chunk=8)):
+        _res = core.map_plans(MOD, plans, chunk=8)
+        for p, r in zip(plans, _res):
             batch.add(p, r)
             if len(batch.samples) < 3 and r.get('nontrivial'):
                 batch.samples.append({
                     'entry': p['entry'],
                     'tex_head': docgen.doc_text(p['frags'])[:300],
                     'faults': {n_: s.get('fault') for n_, s in p['ltfiles'].items()}})
+        if i == 0:
+            core.cross_validate(MOD, batch, list(zip(plans, _res)),
+                                12 if tier == 'quick' else 60)
         i += step
     rule = ('One case = a seeded document with 1-3 \\LTinput{file} macros at '
             'seeded places (own line, inline, in arguments, footnote, section, '
